@@ -483,8 +483,14 @@ script_end:
         bool trav_ok = all_ok && p.error_flags == BINSON_ERROR_NONE;
         CHECK(!trav_ok || rv == RV_OK, "C08 traversal succeeded => verify accepts the same bytes");
         CHECK(!(rv == RV_OK) || trav_ok, "C08 verify accepts => the protocol-following traversal succeeds");
+#ifndef WIT_REJECT
         COVER(trav_ok && executed == SLEN, "main: complete traversal of an accepted document");
+#endif
     }
+#ifdef WIT_REJECT
+    /* documents of this query can never be accepted (e.g. nested deeper than the state array) */
+    COVER(executed >= 1 && p.error_flags != BINSON_ERROR_NONE && rv != RV_OK, "main: traversal stopped by an error, reference rejects");
+#endif
 #endif
 #if MODE == 1 && PROPSET == 10
     if (rc_done(&c) && complete) {
